@@ -36,9 +36,11 @@ theorem sliceBounds_fst_nonneg (n : Nat) (a b : Option Int) : 0 ≤ (sliceBounds
   | some v => simp only; split <;> split <;> omega
 
 /-- integer and unit-stride windows select a contiguous run of indices -/
-theorem window_contiguous (n : Nat) (w : Win) (i : List Nat) (h : winIdx n w = some i) :
+theorem window_contiguous (n : Nat) (w : Win) (i : List Nat) (hu : w.unit = true) (h : winIdx n w = some i) :
     ∀ j (hj : j < i.length), i[j] = i.headD 0 + j := by
   cases w with
+  | sl a b st => simp [Win.unit] at hu
+  | lst l => simp [Win.unit] at hu
   | int v =>
     simp only [winIdx, Option.map_eq_some_iff] at h
     obtain ⟨k, _, rfl⟩ := h
@@ -85,7 +87,7 @@ theorem slice_core (s s' : St) (kw : Kw) (h : Coherent s) (ht : TimeOk s) (hs : 
 
 /-- **columns**: cell `j` of the window has the x-coordinate of source cell `first + j` -/
 theorem origin_x (s s' : St) (kw : Kw) (w : Win) (h : Coherent s) (ht : TimeOk s)
-    (hs : opSlice s kw = some s') (hw : kw.c = some w) :
+    (hs : opSlice s kw = some s') (hw : kw.c = some w) (hu : w.unit = true) :
     ∃ i, winIdx s.nC w = some i ∧ s'.nC = i.length ∧ s'.xcell = s.xcell ∧
       ∀ j (hj : j < i.length), s'.xorig + (j : Rat) * s'.xcell = s.xorig + ((i[j] : Nat) : Rat) * s.xcell := by
   obtain ⟨it, il, ir, ic, ip, _, _, _, hic, _, _, hc⟩ := slice_core s s' kw h ht hs
@@ -95,7 +97,7 @@ theorem origin_x (s s' : St) (kw : Kw) (w : Win) (h : Coherent s) (ht : TimeOk s
   | none => simp [idxOf] at hic; split at hic <;> simp at hic
   | some i =>
     have hwi := idxOf_winIdx s.nC w i hic
-    have hcontig := window_contiguous s.nC w i hwi
+    have hcontig := window_contiguous s.nC w i hu hwi
     have e1 : (slicePre s it il ir (some i) ip).nC = i.length := congrArg Frame.nC (frame_copyVarsInto _ _ _)
     have e2 : (slicePre s it il ir (some i) ip).xcell = s.xcell := congrArg Frame.xcell (frame_copyVarsInto _ _ _)
     have e3 : (slicePre s it il ir (some i) ip).xorig = s.xorig + ((i.headD 0 : Nat) : Rat) * s.xcell := rfl
@@ -107,7 +109,7 @@ theorem origin_x (s s' : St) (kw : Kw) (w : Win) (h : Coherent s) (ht : TimeOk s
 
 /-- **rows**: the same for the y-coordinate -/
 theorem origin_y (s s' : St) (kw : Kw) (w : Win) (h : Coherent s) (ht : TimeOk s)
-    (hs : opSlice s kw = some s') (hw : kw.r = some w) :
+    (hs : opSlice s kw = some s') (hw : kw.r = some w) (hu : w.unit = true) :
     ∃ i, winIdx s.nR w = some i ∧ s'.nR = i.length ∧ s'.ycell = s.ycell ∧
       ∀ j (hj : j < i.length), s'.yorig + (j : Rat) * s'.ycell = s.yorig + ((i[j] : Nat) : Rat) * s.ycell := by
   obtain ⟨it, il, ir, ic, ip, _, _, hir, _, _, _, hc⟩ := slice_core s s' kw h ht hs
@@ -117,7 +119,7 @@ theorem origin_y (s s' : St) (kw : Kw) (w : Win) (h : Coherent s) (ht : TimeOk s
   | none => simp [idxOf] at hir; split at hir <;> simp at hir
   | some i =>
     have hwi := idxOf_winIdx s.nR w i hir
-    have hcontig := window_contiguous s.nR w i hwi
+    have hcontig := window_contiguous s.nR w i hu hwi
     have e1 : (slicePre s it il (some i) ic ip).nR = i.length := congrArg Frame.nR (frame_copyVarsInto _ _ _)
     have e2 : (slicePre s it il (some i) ic ip).ycell = s.ycell := congrArg Frame.ycell (frame_copyVarsInto _ _ _)
     have e3 : (slicePre s it il (some i) ic ip).yorig = s.yorig + ((i.headD 0 : Nat) : Rat) * s.ycell := rfl
@@ -161,7 +163,7 @@ theorem pickL_getElem? {α} (i : List Nat) (l : List α) (h : ∀ k ∈ i, k < l
 /-- **layers**: the level edges of the window are the edges `first … first+m` of the source (one more than
 layers), so every retained layer keeps its lower and upper bound -/
 theorem levels_window (s s' : St) (kw : Kw) (w : Win) (h : Coherent s) (ht : TimeOk s)
-    (hs : opSlice s kw = some s') (hw : kw.l = some w) :
+    (hs : opSlice s kw = some s') (hw : kw.l = some w) (hu : w.unit = true) :
     ∃ i, winIdx s.nL w = some i ∧ s'.nL = i.length ∧ s'.vglvls.length = i.length + 1 ∧
       ∀ j, j ≤ i.length → s'.vglvls[j]? = s.vglvls[i.headD 0 + j]? := by
   obtain ⟨it, il, ir, ic, ip, _, hil, _, _, _, _, hc⟩ := slice_core s s' kw h ht hs
@@ -172,7 +174,7 @@ theorem levels_window (s s' : St) (kw : Kw) (w : Win) (h : Coherent s) (ht : Tim
   | none => simp [idxOf] at hil; split at hil <;> simp at hil
   | some i =>
     have hwi := idxOf_winIdx s.nL w i hil
-    have hcontig := window_contiguous s.nL w i hwi
+    have hcontig := window_contiguous s.nL w i hu hwi
     obtain ⟨hne, hlt⟩ := idxOf_some s.nL (some w) i hil
     have e1 : (slicePre s it (some i) ir ic ip).nL = i.length := congrArg Frame.nL (frame_copyVarsInto _ _ _)
     have e3 : (slicePre s it (some i) ir ic ip).vglvls = sliceLevels s.vglvls i := rfl
